@@ -163,7 +163,8 @@ def tlc(spec_dir, module, cfg=None, workers=8, simulate=None, depth=None, seed=N
     meta = os.path.join(WORK, "tlc-%s-%d-%d" % (module, os.getpid(), _tlc_counter[0]))
     os.makedirs(meta, exist_ok=True)
     libpath = os.pathsep.join([os.path.join(SPEC, "common")] + [os.path.join(SPEC, x) for x in libs])
-    jopts = "-Xss%s -Xmx%s -XX:+UseParallelGC -DTLA-Library=%s" % (stack, heap, libpath)
+    # java.io.tmpdir: TLC creates a scratch directory per run; keep it inside the (removed) metadir, not in /tmp
+    jopts = "-Xss%s -Xmx%s -XX:+UseParallelGC -DTLA-Library=%s -Djava.io.tmpdir=%s" % (stack, heap, libpath, meta)
     if dfs:
         jopts += " -Dtlc2.tool.queue.IStateQueue=StateDeque"
     cp = ":".join([TLA_JAR, COMMUNITY, os.path.join(SPEC, "common")])
